@@ -50,15 +50,29 @@ WrWrite(accept, wst, bytes) ==
 BigBuf == 512     \* bytes.Buffer.ReadFrom's MinRead; larger than every chunk of the small scope
 CopyBuf == 32768  \* io.Copy's buffer
 
+(* The reader handed to a codec is the scripted stream itself, or - rkind   *)
+(* "peeked" - the body runtime.HasBody left in the request: the PeekBody     *)
+(* state machine of Streams (section 3) after one HasBody step, read with    *)
+(* DoRead.  rs = [peeked, rd, s].                                           *)
+RK(c) == IF "rkind" \in DOMAIN c THEN c.rkind ELSE "reader"
+RsInit(c) ==
+  IF RK(c) = "peeked"
+  THEN [peeked |-> TRUE, rd |-> RdInit, s |-> Step(InitState(c.sc, "absent", FALSE), [a |-> "has", k |-> 0])]
+  ELSE [peeked |-> FALSE, rd |-> RdInit, s |-> <<>>]
+RsRead(sc, rs, k) ==
+  IF rs.peeked
+  THEN LET t == DoRead(rs.s, k) IN [n |-> t.ret.n, bytes |-> t.ret.bytes, err |-> t.ret.err, rs |-> [rs EXCEPT !.s = t]]
+  ELSE LET r == RdRead(sc, rs.rd, k) IN [n |-> r.n, bytes |-> r.bytes, err |-> r.err, rs |-> [rs EXCEPT !.rd = r.rd]]
+
 (* bytes.Buffer.ReadFrom / an io.ReaderFrom reading to the end: Read until *)
 (* an error; io.EOF is success                                             *)
 RECURSIVE ReadAllLoop(_, _, _)
-ReadAllLoop(sc, rd, acc) ==
-  LET r == RdRead(sc, rd, BigBuf) IN
+ReadAllLoop(sc, rs, acc) ==
+  LET r == RsRead(sc, rs, BigBuf) IN
   IF r.err = "eof" THEN [bytes |-> acc \o r.bytes, err |-> "none"]
   ELSE IF r.err # "none" THEN [bytes |-> acc \o r.bytes, err |-> "rerr"]
-  ELSE ReadAllLoop(sc, r.rd, acc \o r.bytes)
-ReadAll(sc) == ReadAllLoop(sc, RdInit, <<>>)
+  ELSE ReadAllLoop(sc, r.rs, acc \o r.bytes)
+ReadAll(c) == ReadAllLoop(c.sc, RsInit(c), <<>>)
 
 (* The IDENTITY of the error a failing stream returns (cfg field ekind,     *)
 (* absent = "custom"): whatever it is - io.ErrUnexpectedEOF, an error       *)
@@ -70,19 +84,19 @@ EKind(c) == IF "ekind" \in DOMAIN c THEN c.ekind ELSE "custom"
 
 (* buf.ReadFrom(reader) of the buffered path *)
 ReadAllBuffered(c) ==
-  LET r == ReadAll(c.sc) IN
+  LET r == ReadAll(c) IN
   IF r.err = "rerr" /\ UEOFIsEnd /\ EKind(c) \in {"ueof", "ueofwrap"} THEN [bytes |-> r.bytes, err |-> "none"] ELSE r
 
 (* io.Copy's generic loop: write what was read, then look at the read error *)
 RECURSIVE CopyLoop(_, _, _, _)
-CopyLoop(sc, rd, accept, wst) ==
-  LET r == RdRead(sc, rd, CopyBuf)
+CopyLoop(sc, rs, accept, wst) ==
+  LET r == RsRead(sc, rs, CopyBuf)
       w == IF r.n > 0 THEN WrWrite(accept, wst, r.bytes) ELSE [n |-> 0, err |-> "none", wst |-> wst]
   IN IF w.err # "none" THEN [got |-> w.wst.got, err |-> "werr"]
      ELSE IF r.err = "eof" THEN [got |-> w.wst.got, err |-> "none"]
      ELSE IF r.err # "none" THEN [got |-> w.wst.got, err |-> "rerr"]
-     ELSE CopyLoop(sc, r.rd, accept, w.wst)
-Copy(sc, accept) == CopyLoop(sc, RdInit, accept, WrInit)
+     ELSE CopyLoop(sc, r.rs, accept, w.wst)
+Copy(c, accept) == CopyLoop(c.sc, RsInit(c), accept, WrInit)
 
 (* the harness' io.WriterTo: writes its chunks one by one, stops at the    *)
 (* first write error, finally returns its own terminal error if any        *)
@@ -101,12 +115,14 @@ WriteTo(sc, accept) == WriteToLoop(sc, 1, 0, accept, WrInit)
 (*    sc     reader script (used by the model only); content = Blob of its *)
 (*           bytes and term = its terminal condition (used by the property)*)
 (*    codec  "bytes" | "text"                                              *)
-(*    rkind  "reader" | "readcloser" | "nil"                               *)
+(*    rkind  "reader" | "readcloser" | "nil" | "peeked" (the request body   *)
+(*           as runtime.HasBody leaves it: a peekingReader, closable)      *)
 (*    dst    destination kind (below); pre: pre-populated ("old") or fresh *)
 (*    wacc   accept limit of a writer destination; uerr: the unmarshaler   *)
 (*           destination returns an error                                  *)
 (*  outcome o = [err, stored, rcloses, panic]                              *)
 (***************************************************************************)
+ClosableReaders == {"readcloser", "peeked"}
 BytesDst == {"readerfrom", "rfwriter", "writer", "binunm", "pstring", "pbytes", "pnstring", "pnbytes",
              "anystring", "anybytes", "anyint", "anynil", "value", "pint", "pstruct",
              "nilpstring", "nilpbytes", "nilpany", "nil"}
@@ -126,14 +142,14 @@ TypedNil(pre, cl) == IF GuardTypedNil THEN COut("other", pre, cl, FALSE) ELSE CO
 
 BSConsume(c) ==
   LET pre == PreOf(c)
-      cl  == IF c.closeOpt /\ c.rkind = "readcloser" THEN 1 ELSE 0
+      cl  == IF c.closeOpt /\ c.rkind \in ClosableReaders THEN 1 ELSE 0
   IN
   IF c.rkind = "nil" THEN COut("other", pre, 0, FALSE)                        \* reader == nil
   ELSE IF c.dst = "nil" THEN COut("other", pre, IF CloseOnNilPayload THEN cl ELSE 0, FALSE)   \* data == nil
   ELSE IF c.dst \in {"readerfrom", "rfwriter"} THEN                           \* io.ReaderFrom first
-       LET r == ReadAll(c.sc) IN COut(r.err, r.bytes, cl, FALSE)
+       LET r == ReadAll(c) IN COut(r.err, r.bytes, cl, FALSE)
   ELSE IF c.dst = "writer" THEN                                               \* io.Writer: io.Copy
-       LET r == Copy(c.sc, c.wacc) IN COut(r.err, r.got, cl, FALSE)
+       LET r == Copy(c, c.wacc) IN COut(r.err, r.got, cl, FALSE)
   ELSE LET r == ReadAllBuffered(c) IN                                         \* buf.ReadFrom(reader)
        IF r.err # "none" THEN COut("rerr", pre, cl, FALSE)
        ELSE CASE c.dst = "binunm" -> IF c.uerr THEN COut("uerr", pre, cl, FALSE) ELSE COut("none", r.bytes, cl, FALSE)
@@ -179,14 +195,14 @@ ConsumeRegular(c, o) ==
 
 ConsumeAllowed(c, o) ==
   /\ ~o.panic
-  /\ c.rkind # "nil" => o.rcloses = (IF c.closeOpt /\ c.rkind = "readcloser" THEN 1 ELSE 0)
+  /\ c.rkind # "nil" => o.rcloses = (IF c.closeOpt /\ c.rkind \in ClosableReaders THEN 1 ELSE 0)
   /\ IF c.rkind = "nil" THEN o.err # "none"
      ELSE \/ ConsumeRegular(c, o)
           \/ EmptyTextNoop(c) /\ o.err = "none" /\ o.stored = Blob(PreOf(c))  \* allow-both: what the code does on empty text
 
 ConsumeWhy(c, o) ==
   IF o.panic THEN "panic"
-  ELSE IF c.rkind # "nil" /\ o.rcloses # (IF c.closeOpt /\ c.rkind = "readcloser" THEN 1 ELSE 0) THEN "close-iff-requested"
+  ELSE IF c.rkind # "nil" /\ o.rcloses # (IF c.closeOpt /\ c.rkind \in ClosableReaders THEN 1 ELSE 0) THEN "close-iff-requested"
   ELSE IF c.rkind = "nil" THEN "nil-reader-accepted"
   ELSE IF ~DstSupported(c) THEN "unsupported-destination-accepted"
   ELSE IF ConsumeFault(c) THEN "error-swallowed"
@@ -201,7 +217,8 @@ ConsumeWhy(c, o) ==
 (*    wkind  "writer" | "writecloser" | "nil"                              *)
 (*  outcome o = [err, out, wcloses, scloses, panic]                        *)
 (***************************************************************************)
-BytesSrc == {"writerto", "wtreader", "wtreadcloser", "reader", "readcloser", "binm", "error",
+\* "seekreader": a *bytes.Reader the caller has already read a preamble from - the source bytes are the REST
+BytesSrc == {"writerto", "wtreader", "wtreadcloser", "reader", "readcloser", "seekreader", "binm", "error",
              "bytes", "string", "pbytes", "pstring", "nbytes", "nstring", "struct", "pstruct", "strslice",
              "nilpstring", "nilpbytes", "nilpstruct", "nil", "int", "map", "pint"}
 BytesSrcSupported == BytesSrc \ {"nilpstring", "nilpbytes", "nilpstruct", "nil", "int", "map", "pint"}
@@ -226,7 +243,7 @@ BSProduce(p) ==
   ELSE CASE p.src \in {"writerto", "wtreader", "wtreadcloser"} ->              \* io.WriterTo first
               LET r == WriteTo(p.sc, p.wacc) IN POut(r.err, r.got, wcl, scl, FALSE)
          [] p.src \in {"reader", "readcloser"} ->                              \* io.Reader: io.Copy
-              LET r == Copy(p.sc, p.wacc) IN POut(r.err, r.got, wcl, scl, FALSE)
+              LET r == Copy([sc |-> p.sc], p.wacc) IN POut(r.err, r.got, wcl, scl, FALSE)
          [] p.src = "binm" -> IF p.merr THEN POut("merr", <<>>, wcl, scl, FALSE) ELSE WriteOnce(p, wcl, scl)
          [] p.src \in {"nilpstring", "nilpbytes", "nilpstruct"} ->             \* reflect.Indirect(nil ptr).Type()
               IF GuardTypedNil THEN POut("other", <<>>, wcl, scl, FALSE) ELSE POut("none", <<>>, 0, 0, TRUE)
